@@ -17,6 +17,11 @@
      float64 / float32 / object / range-labelled / empty models and views, incl. dense matrices and arrays LARGER than
      the model with invalid content: a rejected call leaves the full observable state (labels, coefficients through
      three read paths, counts, native size, the base model of a view) unchanged.
+(iv) (`c20_pyseq.py`) VALID Python call sequences on two cooperating models (update / += / + / - / -= / symbolic sums /
+     from_bqm / QM.update(BQM); receiver empty / linear-only / with interactions / with a self-loop; shared variables in the
+     same or a permuted order; float64 / float32) + single edits of the result + a small-scope exhaustive sweep: after every
+     line the native adjacency read through the public API is well-formed (strictly sorted neighbourhoods, symmetric,
+     binary-search lookups from both sides, counts) and holds the independently computed polynomial.
 """
 import json
 import os
@@ -29,7 +34,7 @@ from concurrent.futures import ThreadPoolExecutor
 from fractions import Fraction as F
 
 from harness.common import VERIF, rat, run_driver
-from harness.props import c20_cpp, c20_sweep
+from harness.props import c20_cpp, c20_sweep, c20_pyseq
 
 PY = '/venv/bin/python'
 
@@ -81,7 +86,7 @@ def finite(st):
 
 
 REPLAY_SRC = '''import os, sys, dimod
-from harness.props import c20_cpp, c20_sweep
+from harness.props import c20_cpp, c20_sweep, c20_pyseq
 inc = os.path.join(os.path.dirname(dimod.__file__), 'include')
 exe = c20_cpp.build(inc, os.path.join(os.environ.get('VERIF_SCRATCH', '/var/tmp/dimod-verif'), 'c20-cache'))
 ops = %r
@@ -569,8 +574,11 @@ def dqm_sweep_part(ctx):
 def run(ctx):
     ctx.rule = ('(i) random sequences of VALID calls on the C++ header API (ASan+UBSan+assertions), one case per op: invariants on the '
                 'printed state, const API consistency, Lean model; (ii) one malformed Python call per child process on fresh objects; '
-                'non-trivial = all (every op changes or probes a state; every malformed call exercises a rejection path)')
+                'non-trivial = all (every op changes or probes a state; every malformed call exercises a rejection path); '
+                '(iv) valid Python call sequences on two cooperating QM / BQM models (receiver class x shared-variable order x operator), '
+                'native adjacency audited through the public API after every line')
     cpp_part(ctx)
     boundary_part(ctx)
     dqm_sweep_part(ctx)
     c20_sweep.sweep_part(ctx)
+    c20_pyseq.pyseq_part(ctx)
